@@ -36,6 +36,7 @@ import (
 	"time"
 
 	"github.com/VKCOM/statshouse/internal/verif/mc"
+	c09os "github.com/VKCOM/statshouse/internal/verif_c09os"
 	c09time "github.com/VKCOM/statshouse/internal/verif_c09time"
 )
 
@@ -238,6 +239,9 @@ type c09World struct {
 	sh   [c09NumShards]*c09RefShard
 	hist []string
 	pad  []byte
+	// calls = the directory-changing calls (create, WriteAt(offset, bytes), remove) the cache issued during the
+	// final operation, in issue order (recorded by the file-system seam internal/verif_c09os)
+	calls []c09os.Call
 }
 
 // c09DirPool recycles emptied world/image directories (creating and removing directory trees dominated the cost).
@@ -354,7 +358,13 @@ func (w *c09World) apply(o c09Op, full bool) *c09Viol {
 			}
 		}
 		rec := &c09Rec{ord: ord, sec: o.sec, data: c09Payload(ord, o.sec, o.size)}
+		if full {
+			c09os.Start()
+		}
 		id, err := w.d.PutBucket(o.shard, o.sec, rec.data)
+		if full {
+			w.calls = c09os.Stop()
+		}
 		if err != nil {
 			return fail("put-error", "PutBucket failed: %v", c09Stable(err))
 		}
@@ -385,7 +395,13 @@ func (w *c09World) apply(o c09Op, full bool) *c09Viol {
 		}
 	case c09Erase:
 		r := w.sh[o.shard]
+		if full {
+			c09os.Start()
+		}
 		_ = w.d.EraseBucket(o.shard, o.id)
+		if full {
+			w.calls = c09os.Stop()
+		}
 		if rec := r.known[o.id]; rec != nil {
 			rec.erased = true
 			delete(r.known, o.id)
@@ -400,7 +416,13 @@ func (w *c09World) apply(o c09Op, full bool) *c09Viol {
 			}
 			r.unread = r.unread[1:]
 		}
+		if full {
+			c09os.Start()
+		}
 		sec, id := w.d.ReadNextTailBucket(o.shard)
+		if full {
+			w.calls = c09os.Stop()
+		}
 		if want == nil {
 			r.drained = true
 			if id != 0 {
@@ -960,6 +982,138 @@ func c09BuildImages(o c09Op, pre, post c09Snap, keepDir string, preExp, postExp 
 	return imgs
 }
 
+// c09BuildCallImages derives crash images from the RECORDED calls of the final operation instead of from the
+// before/after difference: the cache issued calls[0..n-1] (create, WriteAt(offset, bytes), remove) in this order;
+// a crash leaves the directory with calls[0..i-1] applied completely and, when call i is a WriteAt, its first k
+// bytes (every i, every 0 < k < len). A WriteAt beyond the end of the file extends it; bytes nobody wrote yet
+// read as zero (file hole). No assumption about which call writes what or in which direction the file grows:
+// the order and the offsets are the code's own. Expectation: the reference before the call, with the second the
+// interrupted call put (or erases) as the only optional one.
+func c09BuildCallImages(o c09Op, dir string, pre, post c09Snap, calls []c09os.Call, preExp []c09Exp, erasedPre []*c09Rec, newRec, target *c09Rec, notes *[]string) (imgs []c09Image, explained bool) {
+	explained = true
+	if len(calls) == 0 {
+		return nil, c09SameSnap(pre, post)
+	}
+	cur := map[string][]byte{}
+	linked := map[string]bool{}
+	for _, n := range c09Names(pre) {
+		if pre[n].big {
+			linked[n] = true
+		} else {
+			cur[n] = pre[n].data
+		}
+	}
+	var descs []string
+	putPos := int64(-1)
+	for _, c := range calls {
+		n := filepath.Base(c.Path)
+		if filepath.Dir(c.Path) != dir {
+			*notes = append(*notes, "recorded call outside the shard directory of the operation (call images not built)")
+			return nil, false
+		}
+		if linked[n] || c.Off+int64(len(c.Data)) > c09BigFile {
+			*notes = append(*notes, "recorded call touches a big file (call images of that operation not built)")
+			return nil, true
+		}
+		switch c.Kind {
+		case c09os.CallCreate:
+			descs = append(descs, "create "+n)
+		case c09os.CallRemove:
+			descs = append(descs, "remove "+n)
+		case c09os.CallWrite:
+			descs = append(descs, fmt.Sprintf("WriteAt(%d bytes, offset %d) %s", len(c.Data), c.Off, n))
+			if putPos < 0 || c.Off < putPos {
+				putPos = c.Off
+			}
+		}
+	}
+	all := strings.Join(descs, "; ")
+	var exp []c09Exp
+	switch {
+	case o.kind == c09Put && newRec != nil:
+		exp = append(append([]c09Exp(nil), preExp...), c09Exp{rec: newRec, optional: true})
+	case o.kind == c09Erase:
+		exp = append([]c09Exp(nil), preExp...)
+		for i := range exp {
+			if exp[i].rec == target {
+				exp[i].optional = true
+			}
+		}
+	default:
+		exp = preExp
+	}
+	emit := func(desc, tornFile string, off int64) {
+		files := map[string][]byte{}
+		for k, v := range cur {
+			files[k] = v
+		}
+		var links []string
+		for _, n := range c09Names(pre) {
+			if linked[n] {
+				links = append(links, n)
+			}
+		}
+		tpos := off
+		switch {
+		case o.kind == c09Put:
+			tpos = putPos // start of the record, wherever its first written byte lies
+		case o.kind == c09Erase && target != nil && target.file == tornFile:
+			tpos = target.pos
+		}
+		imgs = append(imgs, c09Image{kind: "torn-call", desc: desc + " [calls of the operation in issue order: " + all + "]",
+			files: files, links: links, tornFile: tornFile, tornPos: tpos, exp: exp, erased: erasedPre})
+	}
+	overlay := func(old []byte, off int64, data []byte) []byte {
+		n := int64(len(old))
+		if e := off + int64(len(data)); e > n {
+			n = e
+		}
+		out := make([]byte, n) // holes read as zero
+		copy(out, old)
+		copy(out[off:], data)
+		return out
+	}
+	for i, c := range calls {
+		n := filepath.Base(c.Path)
+		switch c.Kind {
+		case c09os.CallCreate:
+			cur[n] = []byte{}
+		case c09os.CallRemove:
+			delete(cur, n)
+			delete(linked, n)
+		case c09os.CallWrite:
+			old, ok := cur[n]
+			if !ok {
+				*notes = append(*notes, "recorded WriteAt to a file that is not in the directory (call images not built)")
+				return imgs, false
+			}
+			for k := 1; k < len(c.Data); k++ {
+				cur[n] = overlay(old, c.Off, c.Data[:k])
+				emit(fmt.Sprintf("crash after %d of %d calls and %d of %d bytes of call %d (%s)", i, len(calls), k, len(c.Data), i+1, descs[i]), n, c.Off)
+			}
+			cur[n] = overlay(old, c.Off, c.Data)
+		}
+		if i < len(calls)-1 {
+			emit(fmt.Sprintf("crash after %d of %d calls (last applied: %s)", i+1, len(calls), descs[i]), n, c.Off)
+		}
+	}
+	// self-check of the recorder: all calls applied to the pre-call directory must give the post-call directory
+	for _, n := range c09Names(post) {
+		if post[n].big {
+			continue
+		}
+		if c, ok := cur[n]; !ok || !bytes.Equal(c, post[n].data) {
+			explained = false
+		}
+	}
+	for n := range cur {
+		if _, ok := post[n]; !ok {
+			explained = false
+		}
+	}
+	return imgs, explained
+}
+
 // c09SameSnap: same file names with the same bytes (big files: same length and headers).
 func c09SameSnap(a, b c09Snap) bool {
 	if len(a) != len(b) {
@@ -1002,6 +1156,11 @@ func c09SameBig(a, b *c09SnapFile) bool {
 var c09ImgSeen sync.Map
 
 func c09ImageKey(img *c09Image, bigHdrs map[string][]c09Disk) string {
+	return c09ImageKeyKind(img, bigHdrs, img.kind)
+}
+
+// c09ImageKeyKind: kind "" gives the key of what the verdict depends on (directory bytes + expectation) only.
+func c09ImageKeyKind(img *c09Image, bigHdrs map[string][]c09Disk, kind string) string {
 	h := sha256.New()
 	var names []string
 	for n := range img.files {
@@ -1020,7 +1179,7 @@ func c09ImageKey(img *c09Image, bigHdrs map[string][]c09Disk) string {
 			}
 		}
 	}
-	fmt.Fprintf(h, "|%s|", img.kind)
+	fmt.Fprintf(h, "|%s|", kind)
 	for _, e := range img.exp {
 		fmt.Fprintf(h, "e%d,%v,%d:", e.rec.sec, e.optional, len(e.rec.data))
 		if len(e.rec.data) <= 4096 {
@@ -1303,6 +1462,7 @@ type c09Part struct {
 
 type c09Counters struct {
 	images, dupImages atomic.Int64
+	sameAsDiff        atomic.Int64 // call images identical to a diff-based image of the same transition
 	mu                sync.Mutex
 	notes             map[string]int
 	kinds             map[string]int
@@ -1381,6 +1541,14 @@ func c09Run(rep *mc.Report, part *c09Part, cnt *c09Counters, hist []int) mc.Step
 		w.d = nil
 		var notes []string
 		imgs := c09BuildImages(o, pre, post, keepDir, preExp, postExp, erasedPre, erasedPost, newRec, target, &notes)
+		var callImgs []c09Image
+		if c09OsSeam {
+			var explained bool
+			callImgs, explained = c09BuildCallImages(o, w.shardDir(s), pre, post, w.calls, preExp, erasedPre, newRec, target, &notes)
+			if !explained {
+				rep.Infra("c09: the recorded calls of the final operation do not reproduce the post-call directory (recorder incomplete): " + strings.Join(w.hist, " "))
+			}
+		}
 		bigHdrs := map[string][]c09Disk{}
 		for n, f := range post {
 			if f.big {
@@ -1391,6 +1559,23 @@ func c09Run(rep *mc.Report, part *c09Part, cnt *c09Counters, hist []int) mc.Step
 			if _, ok := bigHdrs[n]; !ok && f.big {
 				recs, _, _, _ := c09ParseFile(filepath.Join(keepDir, n))
 				bigHdrs[n] = recs
+			}
+		}
+		// a call image whose directory bytes and expectation equal an image the diff-based families built for the
+		// same transition has the same verdict: checked once (under the older family's name)
+		if len(callImgs) > 0 {
+			have := map[string]bool{}
+			for k := range imgs {
+				have[c09ImageKeyKind(&imgs[k], bigHdrs, "")] = true
+			}
+			for k := range callImgs {
+				ck := c09ImageKeyKind(&callImgs[k], bigHdrs, "")
+				if have[ck] {
+					cnt.sameAsDiff.Add(1)
+					continue
+				}
+				have[ck] = true
+				imgs = append(imgs, callImgs[k])
 			}
 		}
 		cnt.mu.Lock()
@@ -1482,6 +1667,21 @@ func c09RotOps(maxID int) []c09Op {
 	return append(ops, c09Op{kind: c09Tail, shard: 0}, c09Op{kind: c09Restart})
 }
 
+// c09OsSeam: disk_cache.go reaches the file system through internal/verif_c09os (its calls can be recorded).
+var c09OsSeam bool
+
+func c09OsSeamActive() bool {
+	w, err := c09NewWorld()
+	if err != nil {
+		return false
+	}
+	defer w.destroy()
+	c09os.Start()
+	_, err = w.d.PutBucket(0, 100, []byte{1})
+	calls := c09os.Stop()
+	return err == nil && len(calls) > 0
+}
+
 // c09SeamActive reports whether disk_cache.go names its files from the harness's virtual clock.
 func c09SeamActive() bool {
 	w, err := c09NewWorld()
@@ -1514,18 +1714,24 @@ func TestVerifC09(t *testing.T) {
 		return
 	}
 	seam := c09SeamActive()
+	c09OsSeam = c09OsSeamActive()
+	if !c09OsSeam {
+		rep.Infra("c09: file-system seam inactive (disk_cache.go does not run through internal/verif_c09os): crash images from recorded write calls cannot be built")
+	}
 	small := fileRotateSize <= c09BigFile // instrumented copy with a small rotation size: rotation is part of the core alphabet
 	coreDepth := mc.Pick(4, 6)
 	rotDepth := mc.Pick(2, 3)
 	bigLen := fileRotateSize - 2*c09Header - 1 // a 1-byte put then fills the file to exactly fileRotateSize
 	rep.Rule = "explicit-state BFS over operation histories on the real DiskBucketStorage in a real directory; state = directory bytes + all shard fields + reference; " +
 		"in every state GetBucket of every id is compared, and GetBucket(id, stored second | other second) is itself an operation of the history (answered or refused it must leave files, sizes and every later answer unchanged); for the final call of every transition that changed the disk, every crash image (each byte prefix of the appended header+body, each prefix of the erase-marker overwrite, " +
-		"each point between file creation/removal, plus length-first zero-tail images of the body) is reopened through makeDiscCacheShard/ReadNextTailSecond/GetBucket and compared with the reference list. " +
+		"each point between file creation/removal, plus length-first zero-tail images of the body; and, from the recorded create/WriteAt(offset, bytes)/remove calls of the operation in issue order, every prefix of the call list with the last applied WriteAt cut at every byte, unwritten bytes of the file zero) is reopened through makeDiscCacheShard/ReadNextTailSecond/GetBucket and compared with the reference list. " +
 		"non-trivial = the shard of the final call holds at least two seconds or an erased second (operations interact through the same file)"
 	rep.Bounds["core_depth"] = coreDepth
 	rep.Bounds["core_alphabet"] = "put(shard 0/1, (second,payload) in {(100,0 B),(100,37 B),(101,1 B),(101,37 B)}), erase(shard,id<=depth-1), readNextTail(shard), get(shard,id<=depth-1,second in {stored, the other one}), restart, clock+1h; GetBucket(every id) as observer in every state; in every crash image each re-read second is also asked for with another second"
 	rep.Bounds["file_rotate_size"] = fileRotateSize
 	rep.Bounds["clock_seam_active"] = seam
+	rep.Bounds["write_call_recorder_active"] = c09OsSeam
+	rep.Assume("crash model of the torn-call images: the file-changing calls of the interrupted operation reach the disk in issue order, the last one that reached it possibly only with a byte prefix; a byte of the file that no call wrote yet reads as zero (hole); no reordering between calls, no sub-call reordering")
 	rep.Assume("torn-write model: bytes reach the file in the order the code issues its WriteAt calls (header, then body); a crash leaves a byte prefix; in-place overwrite of the erase marker leaves a prefix of the overwritten bytes")
 	rep.Assume("additional length-first images (file length already final, rest of the BODY zero) exercise the body crc; the same model inside the header is not asserted (statement leaves it open)")
 	if seam {
@@ -1572,6 +1778,6 @@ func TestVerifC09(t *testing.T) {
 	}
 	n := cnt.images.Load()
 	rep.AddCounts(n, n, 0, 0)
-	rep.Parts["crash_images"] = map[string]any{"images": n, "identical_images_skipped": cnt.dupImages.Load(), "by_kind": cnt.kinds, "transitions_with_limited_tearing": cnt.notes}
+	rep.Parts["crash_images"] = map[string]any{"images": n, "identical_images_skipped": cnt.dupImages.Load(), "call_images_identical_to_a_diff_image_of_the_same_transition": cnt.sameAsDiff.Load(), "by_kind": cnt.kinds, "transitions_with_limited_tearing": cnt.notes}
 	t.Logf("C09: images=%d kinds=%v notes=%v violations=%d", n, cnt.kinds, cnt.notes, rep.NumViolations())
 }
